@@ -26,7 +26,7 @@ class C03(Prop):
     assumptions = ["views satisfy ndarray's aliasing invariant (distinct cells inside the allocation)"]
 
     def gen(self, tier, rng):
-        reps = 120 if tier == "quick" else 1200
+        reps = 120 if tier == "quick" else 5000
         for _ in range(reps):
             n = rng.range(1, 24)
             data = [rng.range(0, 6) for _ in range(n)]
